@@ -11,16 +11,16 @@ PROP = {
         # the text regression inputs `# hostile: ...` are replayed through it.
         {"target": "c13_hostile_rc", "sub": "hostile",
          "quick": {"cases": 10000, "max_size": 100, "workers": 4, "case_alarm": 60},
-         "thorough": {"cases": 250000, "max_size": 100, "workers": 4, "case_alarm": 60}},
+         "thorough": {"cases": 200000, "max_size": 100, "workers": 4, "case_alarm": 60}},
         # (b) line editor against the reference editor
         {"target": "c13_line_editor_rc", "sub": "line_editor",
          "quick": {"cases": 4000, "max_size": 100, "workers": 4, "case_alarm": 60},
-         "thorough": {"cases": 120000, "max_size": 100, "workers": 4, "case_alarm": 60}},
+         "thorough": {"cases": 80000, "max_size": 100, "workers": 4, "case_alarm": 60}},
         # (a) hostile bytes, libFuzzer (even workers start from corpus/C13/hostile, odd ones from an empty corpus).
         # A hang is part of the property: a timeout artifact is a violation (a unit takes ~1 ms; the limit is 60 s).
         {"target": "c13_hostile_fuzz", "sub": "hostile", "dict": _DICT, "timeout_is_violation": True,
          "quick": {"runs": 25000, "max_len": 512, "workers": 8, "unit_timeout": 60},
-         "thorough": {"runs": 300000, "max_len": 1024, "workers": 8, "unit_timeout": 60}},
+         "thorough": {"runs": 250000, "max_len": 1024, "workers": 8, "unit_timeout": 60}},
     ],
     "assumptions": [
         "one session per Terminal, driven from the loop thread; the loop is drained (a few passes) before the service, the Terminal and the loop are destroyed, in that order",
